@@ -19,6 +19,9 @@ def classify(iToken, lObjects):
     iCloseParenthesis = 0
     while iCurrent < iStop:
         iCurrent = utils.find_next_token(iCurrent, lObjects)
+        if type(lObjects[iCurrent]) != parser.item:
+            # no unclassified token left before the end of the file
+            break
         if utils.token_is_open_parenthesis(iCurrent, lObjects):
             iOpenParenthesis += 1
         if utils.token_is_close_parenthesis(iCurrent, lObjects):
